@@ -10,6 +10,7 @@ import (
 	"runtime/pprof"
 	"sort"
 	"strings"
+	"syscall"
 	"time"
 )
 
@@ -30,6 +31,32 @@ type Spec struct {
 	Race      bool     `json:"race"`
 	Procs     int      `json:"procs"`
 	RaceLog   string   `json:"race_log,omitempty"`
+	// MemLimitMB, when > 0, is a hard address-space limit (RLIMIT_AS) the
+	// child puts on itself: an allocation the harness cannot afford then ends
+	// the process with "fatal error: out of memory", which the parent
+	// attributes to the run in progress (see CurFile) and reports as a verdict.
+	MemLimitMB int `json:"mem_limit_mb,omitempty"`
+}
+
+// CurFile is the path of the 8-byte file, mapped shared by the child, that
+// always holds the index of the run in progress: it survives a fatal error
+// or a kill, so the parent can re-execute exactly that run.
+func CurFile(out string) string { return out + ".cur" }
+
+func mapCur(path string) []byte {
+	fh, err := os.OpenFile(path, os.O_RDWR|os.O_CREATE|os.O_TRUNC, 0o644)
+	if err != nil {
+		return make([]byte, 8)
+	}
+	defer fh.Close()
+	if err := fh.Truncate(8); err != nil {
+		return make([]byte, 8)
+	}
+	m, err := syscall.Mmap(int(fh.Fd()), 0, 8, syscall.PROT_READ|syscall.PROT_WRITE, syscall.MAP_SHARED)
+	if err != nil {
+		return make([]byte, 8)
+	}
+	return m
 }
 
 // Found is one violation found by a child, already minimised.
@@ -47,6 +74,7 @@ type Found struct {
 	LogFP   string    `json:"log_fp"`
 	Count   int       `json:"count"`
 	Shrinks int       `json:"shrink_runs"`
+	BySeed  bool      `json:"by_seed,omitempty"`
 }
 
 // Out is what a child writes when it finishes.
@@ -113,6 +141,14 @@ func ChildMain(sims map[string]SimFunc) bool {
 	runtime.GOMAXPROCS(sp.Procs)
 	debug.SetGCPercent(400)
 	debug.SetMemoryLimit(3 << 30) // soft: collect harder instead of growing without bound
+	if sp.MemLimitMB > 0 {
+		l := syscall.Rlimit{Cur: uint64(sp.MemLimitMB) << 20, Max: uint64(sp.MemLimitMB) << 20}
+		if err := syscall.Setrlimit(syscall.RLIMIT_AS, &l); err != nil {
+			fmt.Fprintln(os.Stderr, "setrlimit:", err)
+			os.Exit(2)
+		}
+	}
+	cur := mapCur(CurFile(sp.Out))
 	out := &Out{Sim: sp.Sim, Faults: map[string]int{}, Probes: map[string]int{}, Extra: map[string]int64{}}
 	start := time.Now()
 	finish := func(code int) {
@@ -189,6 +225,7 @@ func ChildMain(sims map[string]SimFunc) bool {
 			break
 		}
 		tseed := Mix(sp.Seed, simh, uint64(run))
+		binary.LittleEndian.PutUint64(cur, uint64(run)+1)
 		keep := out.Runs < 2
 		t0 := time.Now()
 		c := RunOne(f, NewTape(tseed), sp.Tier, keep)
@@ -259,7 +296,7 @@ func ChildMain(sims map[string]SimFunc) bool {
 			expired := false
 			min := Shrink(c.Rec, func(v []uint32) bool {
 				n++
-				if expired || (n&7 == 0 && time.Now().After(shrinkEnd)) {
+				if expired || time.Now().After(shrinkEnd) {
 					expired = true
 					return false
 				}
